@@ -88,18 +88,36 @@ func CoqBytes(b []byte) string {
 	if len(b) == 0 {
 		return "(@nil N)"
 	}
-	if len(b) > 1500 {
-		var parts []string
-		for i := 0; i < len(b); i += 1000 {
-			j := i + 1000
-			if j > len(b) {
-				j = len(b)
-			}
-			parts = append(parts, coqBytesFlat(b[i:j]))
-		}
-		return "(List.concat [" + strings.Join(parts, ";\n ") + "])"
+	if len(b) >= 24 {
+		return coqBytesPacked(b)
 	}
 	return coqBytesFlat(b)
+}
+
+// coqBytesPacked: 7 bytes (big-endian) per primitive 63-bit integer literal, unpacked by
+// Common/Pack.v inside vm_compute (coqc parses these ~20x faster than N-literal lists).
+func coqBytesPacked(b []byte) string {
+	var sb strings.Builder
+	fmt.Fprintf(&sb, "(unpack %d%%Z [", len(b))
+	for i := 0; i < len(b); i += 7 {
+		j := i + 7
+		if j > len(b) {
+			j = len(b)
+		}
+		var w uint64
+		for _, x := range b[i:j] {
+			w = w<<8 | uint64(x)
+		}
+		if i > 0 {
+			sb.WriteString(";")
+			if (i/7)%64 == 0 {
+				sb.WriteString("\n ")
+			}
+		}
+		fmt.Fprintf(&sb, "0x%x", w)
+	}
+	sb.WriteString("]%uint63)")
+	return sb.String()
 }
 
 func coqBytesFlat(b []byte) string {
@@ -221,6 +239,7 @@ func Write(o Opts, prop, part, header, caseType string, cases []Case, dist map[s
 			hi = len(cases)
 		}
 		var sb strings.Builder
+		sb.WriteString("From Coq Require Import Uint63.\nFrom HT Require Import Common.Pack.\n")
 		sb.WriteString(header)
 		sb.WriteString("\nOpen Scope Z_scope.\n")
 		fmt.Fprintf(&sb, "Definition cases : list %s := \n", caseType)
